@@ -55,7 +55,16 @@ type rpfReturn struct{ vals []*Val }
 type rpfBreak struct{}
 
 // callFunc folds a function body on the given arguments. Returns the results.
+// rpfDepth counts nested folds of module functions: a callee that calls itself without end (a fold of a mutated
+// recursion) must end as a fold failure, not by exhausting the checker's memory.
+var rpfDepth int
+
 func (c *Ctx) rpfCall(fd *ast.FuncDecl, p *packages.Package, args []*Val, hooks *rpf) (res []*Val, err error) {
+	rpfDepth++
+	defer func() { rpfDepth-- }()
+	if rpfDepth > 400 {
+		return nil, &rpfErr{msg: fmt.Sprintf("%s: calls nested more than 400 deep while folding %s: unbounded recursion", c.pos(fd.Pos()), fd.Name.Name)}
+	}
 	r := &rpf{c: c, p: p, env: map[types.Object]*Val{}, curFn: fd}
 	if hooks != nil {
 		r.callHook = hooks.callHook
